@@ -6,6 +6,7 @@ import (
 	"go/types"
 	"math/big"
 	"strconv"
+	"strings"
 
 	"golang.org/x/tools/go/ssa"
 )
@@ -20,6 +21,10 @@ func (f *frame) set(v ssa.Value, term string) {
 func (f *frame) name(v ssa.Value, term string) {
 	vc := f.vc
 	srt := vc.sorts.SortOf(v.Type())
+	if srt == "Slice" && strings.Contains(term, "(ite ") {
+		f.vals[v] = Val{T: vc.defineConst(f.prefix+v.Name(), srt, term), Typ: v.Type()}
+		return
+	}
 	f.vals[v] = Val{T: vc.define(f.prefix+v.Name(), srt, term), Typ: v.Type()}
 }
 
@@ -510,8 +515,9 @@ func (f *frame) execConvert(x *ssa.Convert, in string, st *State) {
 		base := f.alloc(x.Name(), in, st)
 		n := App("str.len_", v.T)
 		sl := App("mk-slice", base, "0", n, n)
-		vc.assume(in, fmt.Sprintf("(forall ((i! Int)) (! (=> (and (<= 0 i!) (< i! %s)) (= (select %s (Elem %s i!)) (str.at_ %s i!))) :pattern ((select %s (Elem %s i!)))))", n, st.H["Int"], base, v.T, st.H["Int"], base))
 		f.name(x, sl)
+		sn := f.vals[x].T
+		vc.assume(in, fmt.Sprintf("(forall ((i! Int)) (! (=> (and (<= 0 i!) (< i! %s)) (= (select %s (at_ %s i!)) (str.at_ %s i!))) :pattern ((at_ %s i!)) :pattern ((str.at_ %s i!))))", n, st.H["Int"], sn, v.T, sn, v.T))
 	case from == "Int" && to == "Str":
 		vc.note("string(rune) abstracted in %s", FuncName(f.fn))
 		f.vals[x] = f.freshVal(x.Name(), x.Type(), in, st)
